@@ -274,22 +274,30 @@ static void cmp_zero(Type *ty) {
   case TY_FLOAT:
     println("  xorps %%xmm1, %%xmm1");
     println("  ucomiss %%xmm1, %%xmm0");
-    return;
+    break;
   case TY_DOUBLE:
     println("  xorpd %%xmm1, %%xmm1");
     println("  ucomisd %%xmm1, %%xmm0");
-    return;
+    break;
   case TY_LDOUBLE:
     println("  fldz");
     println("  fucomip");
     println("  fstp %%st(0)");
+    break;
+  default:
+    if (is_integer(ty) && ty->size <= 4)
+      println("  cmp $0, %%eax");
+    else
+      println("  cmp $0, %%rax");
     return;
   }
 
-  if (is_integer(ty) && ty->size <= 4)
-    println("  cmp $0, %%eax");
-  else
-    println("  cmp $0, %%rax");
+  // A NaN compares unordered, which sets ZF and PF, but it is not
+  // zero. Leave ZF set only if the operands were ordered and equal.
+  println("  sete %%al");
+  println("  setnp %%dl");
+  println("  and %%dl, %%al");
+  println("  xor $1, %%al");
 }
 
 enum { I8, I16, I32, I64, U8, U16, U32, U64, F32, F64, F80 };
@@ -1098,11 +1106,15 @@ static void gen_expr(Node *node) {
       println("  fcomip");
       println("  fstp %%st(0)");
 
-      if (node->kind == ND_EQ)
+      if (node->kind == ND_EQ) {
         println("  sete %%al");
-      else if (node->kind == ND_NE)
+        println("  setnp %%dl");
+        println("  and %%dl, %%al");
+      } else if (node->kind == ND_NE) {
         println("  setne %%al");
-      else if (node->kind == ND_LT)
+        println("  setp %%dl");
+        println("  or %%dl, %%al");
+      } else if (node->kind == ND_LT)
         println("  seta %%al");
       else
         println("  setae %%al");
